@@ -17,8 +17,8 @@
       declarations, then, for every definition of [declaration_att_defs] (first definition of a name over all
       attribute-list declarations of the element type) that is not #IMPLIED and whose name is not among
       the items collected so far, an attribute made from the declaration: #REQUIRED gives an attribute
-      without value items (D36).  The specified namespace declarations are NOT among those items, so a
-      declaration `xmlns:p` that is both specified and defaulted is listed twice (finding of this area).
+      without value items (D36).  A definition whose name is a namespace declaration written on the element is skipped
+      as well (D65, repaired in 703c414: before, such a declaration was listed twice).
       [Attribute::normalized_value]: character references as they are, literal text with [normalize_ws],
       entity references through [attr_value_from_name] (= [Model.Info.expand_attr] on the entities of the
       document type declaration), then -- when the element type declares the attribute with a type other
@@ -179,17 +179,19 @@ Definition vattr_of_def (d : attdef) : vattr :=
   VAttr (xd_local d) (xd_prefix d) (match xd_value d with XdValue _ vs => vs | _ => [] end) true.
 Definition is_implied (d : attdef) : bool := match xd_value d with XdImplied => true | _ => false end.
 
-(** Element::attributes: [items] = attributes_specified(), extended in the loop *)
-Fixpoint add_defaults (items : list vattr) (defs : list attdef) : list vattr :=
+(** Element::attributes: [items] = attributes_specified(), extended in the loop; [declared] = namespace_attributes():
+    a namespace declaration written on the element is specified too (D65, repaired in 703c414) *)
+Fixpoint add_defaults (items declared : list vattr) (defs : list attdef) : list vattr :=
   match defs with
   | [] => items
   | d :: r =>
     add_defaults (if negb (is_implied d)
                      && negb (existsb (fun v => qname_eq (va_local v) (va_prefix v) (xd_local d) (xd_prefix d)) items)
-                  then items ++ [vattr_of_def d] else items) r
+                     && negb (existsb (fun v => qname_eq (va_local v) (va_prefix v) (xd_local d) (xd_prefix d)) declared)
+                  then items ++ [vattr_of_def d] else items) declared r
   end.
 Definition element_attributes (defs : list attdef) (attrs : list attr) : list vattr :=
-  add_defaults (map vattr_of (filter (fun a => negb (attr_namespace a)) attrs)) defs.
+  add_defaults (map vattr_of (filter (fun a => negb (attr_namespace a)) attrs)) (map vattr_of (filter attr_namespace attrs)) defs.
 Definition namespace_attributes (attrs : list attr) : list vattr :=
   map vattr_of (filter attr_namespace attrs).
 
